@@ -74,7 +74,7 @@ theorem tower_never_deadlocks (ops : List (String × List Ev)) (hops : ∀ o ∈
 /-- the two orders the code used before the fixes f9a11fe / e6f2866 cannot both respect any rank:
 `users → db` with `db → users`, and `carrier → db` with `db → carrier` -/
 theorem old_orders_have_no_rank (rank : Lock → Nat) :
-    ¬ (respects rank [] [.acq 5, .acq 6, .rel 6, .rel 5] ∧ respects rank [] [.acq 6, .acq 5, .rel 5, .rel 6]) := by
+    ¬ (respects rank [] [.acq 4, .acq 5, .rel 5, .rel 4] ∧ respects rank [] [.acq 5, .acq 4, .rel 4, .rel 5]) := by
   intro ⟨h1, h2⟩
   simp [respects] at h1 h2
   omega
